@@ -60,6 +60,15 @@ Leaves == {
   E(NumL("2"), <<Num("2.0")>>, FALSE, TRUE),
   E(NumL("-1.5"), <<P("-"), NumT("1.5")>>, FALSE, TRUE),
   E(NumL("1.2345678901234568e+20"), <<Num("123456789012345678901.0")>>, FALSE, TRUE),
+  E(NumL("9.223372036854776e+18"), <<Num("9223372036854775808.0")>>, FALSE, TRUE),
+  E(NumL("9.223372036854776e+18"), <<Num("9223372036854775807.0")>>, FALSE, TRUE),
+  E(NumL("1.8446744073709552e+19"), <<Num("18446744073709551616.0")>>, FALSE, TRUE),
+  E(NumL("-9.223372036854776e+18"), <<P("-"), NumT("9223372036854775808.0")>>, FALSE, TRUE),
+  E(NumL("4.294967296e+09"), <<Num("4294967296.0")>>, FALSE, TRUE),
+  E(NumL("1e+21"), <<Num("1000000000000000000000.0")>>, FALSE, TRUE),
+  E(NumL("1e-06"), <<Num("0.000001")>>, FALSE, TRUE),
+  E(NumL("123456.7"), <<Num("123456.7")>>, FALSE, TRUE),
+  E(NumL("0"), <<Num("0.0")>>, FALSE, TRUE),
   E(StrL("x"), <<Str("x")>>, FALSE, TRUE),
   E(StrL(""), <<Str("")>>, FALSE, TRUE),
   E(StrL("it's \"q\" \\ \n end"), <<Str("it's \"q\" \\ \n end")>>, FALSE, TRUE),
@@ -115,8 +124,11 @@ OpPunct(o) == IF o \in LogicOps THEN Kw(o) ELSE P(o)
 \* binary expressions  l op r
 BinE(o, l, r) == E(Bin(CanonOp(o), l.a, r.a), l.t \o <<OpPunct(o)>> \o r.t, l.call \/ r.call, o \in ArithOps /\ l.fld /\ r.fld)
 RegexRhs == E(ReL("^ab/c$"), <<Re("^ab/c$")>>, FALSE, FALSE)
+\* regex patterns with slashes, backslashes before slashes, escapes, classes, flags
+RegexPats == {"^ab/c$", "a\\/b", "usr\\\\/bin", "^c:\\\\\\/data$", "/", "//", "a\\.b", "[/]", "(?i)x", "a|b", "\\d+", " ", "'q'", "\"q\""}
+RegexRhss == {E(ReL(pat), <<Re(pat)>>, FALSE, FALSE) : pat \in RegexPats}
 Bins == {BinE(o, E(Ref("a"), <<Id("a")>>, FALSE, TRUE), r) : o \in ArithOps \cup CmpOps \cup LogicOps, r \in FewLeaves}
-        \cup {BinE(o, E(Ref("a"), <<Id("a")>>, FALSE, TRUE), RegexRhs) : o \in RegexOps}
+        \cup {BinE(o, E(Ref("a"), <<Id("a")>>, FALSE, TRUE), r) : o \in RegexOps, r \in RegexRhss}
         \cup {BinE(o, l, E(IntL("1"), <<Int("1")>>, FALSE, TRUE)) : o \in {"+", "*", "=", "AND"}, l \in FewLeaves}
 
 \* conditions used as witnesses in clause lattices
